@@ -2,7 +2,7 @@
    family, both families on one interface; only valid addresses of attached interfaces of the right kind are
    bound; a reported address is re-adopted exactly). *)
 From Coq Require Import ZArith List Bool Relations.
-From TV Require Import IpamModel IpamProofs.
+From TV Require Import IpamModel IpamProofs IpamProofs2.
 Import ListNotations.
 Local Open Scope Z_scope.
 
@@ -25,6 +25,14 @@ Print Assumptions c02_reachable_well_formed.
 Theorem c02_pass_keeps_invariant : forall rdma_on c l c', good c -> fresh l -> bind_all rdma_on c l = Some c' -> good c'.
 Proof. exact bind_all_fresh_good. Qed.
 Print Assumptions c02_pass_keeps_invariant.
+
+(* the same with pods that report addresses, when every pod has a home interface on which all its bindings and all its
+   reported addresses lie (what a record grown by the controller itself satisfies): take-over loop + pick loop, any
+   pod order, any outcome the loops can produce *)
+Theorem c02_pass_keeps_invariant_reporting : forall (home : Z -> Z) rdma_on c l c',
+  good c -> AtHome home c -> RepHome home c l -> ids_nz l -> bind_all rdma_on c l = Some c' -> good c'.
+Proof. exact bind_all_good. Qed.
+Print Assumptions c02_pass_keeps_invariant_reporting.
 
 (* with reporting pods the pass is still a sequence of steps each of which binds an unowned address to a pod
    that has none in that family (the consistency of a re-adoption with the pod's other address is the
